@@ -432,6 +432,8 @@ func (w *World) nextBlock(r *vf.Rng, o *Obs, num uint64) BlockIn {
 				}
 			case 2:
 				e.Signer = r.Intn(w.h.NVKeys) // possibly not a validator
+			case 3:
+				e.SameHash = r.Chance(50) // one vote listed twice: must not be punished
 			}
 			b.Evs = append(b.Evs, e)
 		}
